@@ -130,6 +130,15 @@ def families(tier, rng):
         for sh in shapes:
             for fl in ("", "W", "s", "j") if tier == "thorough" else ("", "W"):
                 out.append((sh.replace("□", a), fl, inp[0], False, {"twin": sh.replace("□", b)}))
+    # E  bodies of lazily evaluated lambdas that RAISE for some item (modulo by zero, a name that does not exist),
+    #    consumed in each way; X / x written after a lambda-forming modifier in loops inside lambdas
+    for prog in ["⟨5|2|8⟩'12$2-%0=;,", "⟨5|2|8⟩ƛ12$2-%;,", "⟨3|0|1⟩'6$%;W", "⟨1|0⟩ƛ7$%;∑,", "3ʁƛ5$%;L,", "⟨2|0⟩µ9$%;,",
+                 "⟨1|2⟩ƛ←q;,", "⟨1|2⟩'←q;L", "3ʁλ4$%;M,n,", "⟨0|0⟩'1$%;h,n,", "2(⟨1|0⟩ƛ3$%;,)n,", "4λ⟨1|0⟩'5$%;,;†n,"]:
+        for fl in ("", "W", "O"):
+            out.append((prog, fl, inp[0]))
+    for ctx in ["7λ3(n,□)5;†_ n,", "3(n,□)n,", "2(λ3(□);†)n,", "4λ1{□0};†n,", "2(3(□))n,", "5λ[1|□]2;†n,", "@f|3(□);@f;n,"]:
+        for body in ["⁽›_X", "‡›d_X", "≬›dN_X", "⁽›_[1|X]", "⁽›_x", "⁽›†X", "‡+›_ 1[X]", "⁽›_", "X⁽›_"]:
+            out.append((ctx.replace("□", body), rng.choice(["", "W"]), rng.choice(inp)))
     for st in MOD_STACKS:
         for o in MOD_OPERANDS:
             for m in gen.MONADIC_MODS:
